@@ -341,6 +341,8 @@ func costMain(args []string) {
 	tier := fs.String("tier", "quick", "")
 	seed := fs.Uint64("seed", 1, "")
 	out := fs.String("out", "", "")
+	famOut := fs.String("families-out", "", "write the family list (det hex-unit hex-prefix) and exit: input of the op-count stage")
+	only := fs.String("only", "", "time only the families listed in this file (det hex-unit hex-prefix per line)")
 	fs.Parse(args)
 	t0 := time.Now()
 	r := newRng(*seed)
@@ -373,6 +375,34 @@ func costMain(args []string) {
 			v += htmlAlphabet[r.intn(len(htmlAlphabet))]
 		}
 		fams = append(fams, fam{"xss", []string{"", "<a ", "'"}[r.intn(3)], v})
+	}
+	if *famOut != "" {
+		f, err := os.Create(*famOut)
+		if err != nil {
+			fmt.Println(err)
+			os.Exit(2)
+		}
+		w := bufio.NewWriter(f)
+		for _, x := range fams {
+			fmt.Fprintf(w, "%s %s %s\n", x.det, hx(x.unit), hx(x.prefix))
+		}
+		w.Flush()
+		f.Close()
+		return
+	}
+	if *only != "" {
+		data, err := os.ReadFile(*only)
+		if err != nil {
+			fmt.Println(err)
+			os.Exit(2)
+		}
+		fams = fams[:0]
+		for _, ln := range strings.Split(string(data), "\n") {
+			f := strings.Fields(ln)
+			if len(f) == 3 {
+				fams = append(fams, fam{f[0], unhx(f[2]), unhx(f[1])})
+			}
+		}
 	}
 	rep := costReport{Families: len(fams)}
 	n1, n2 := 16384, 65536
